@@ -280,7 +280,7 @@ PROPS["C14"] = {
 
 # ------------------------------------------------------------------ C01
 def cells_C01(tier, consts):
-    cells = morton_cells(tier, ["at", "injective", "sizing", "alloc"])
+    cells = morton_cells(tier, ["index", "at", "injective", "sizing", "alloc"])
     cells += strided_cells(tier, ["formula", "bound8", "bounded64", "alloc"])
     cells += hilbert_cells(tier, ["rot", "box", "alloc"], kmax_quick=8, kmax_thorough=11)
     cells += array_at_cells(tier)
@@ -446,8 +446,28 @@ def cells_C08(tier, consts):
     return binio_cells(tier) + array_io_cells(tier, ["read"])
 
 
+def layer_io_cells(tier):
+    cells = []
+    for L, nm, dims in (("1", "strided", (1, 3)), ("2", "morton", (2, 3)), ("3", "hilbert", (2,))):
+        for n in dims:
+            if tier == "quick" and nm != "hilbert" and n != 3:
+                continue
+            d = {"DIMS_IN": n, "LAYER": L}
+            un = "layer_io@L=" + L
+            cells.append(Cell("io.%s.ndsize.N%d" % (nm, n), un, "h_read_binary_ndsize", defines=d, enforce="read_binary_ndsize", closes_loops="loop-free"))
+            for fl in ("debug", "ndebug"):
+                cells.append(Cell("io.%s.read.N%d.%s" % (nm, n, fl), un, "h_layer_read_binary", defines=d, flavour=fl, enforce="layer_read_binary",
+                                  replace=["read_io_header", "read_io_footer", "read_binary_ndsize"], closes_loops="loop-free",
+                                  backends=(("sat", 600), ("cadical", 600))))
+            cells.append(Cell("io.%s.write.N%d" % (nm, n), un, "h_layer_write_binary", defines=d, enforce="layer_write_binary",
+                              replace=["write_io_header", "write_io_footer"], closes_loops="loop-free", backends=(("sat", 600), ("cadical", 600))))
+            cells.append(Cell("io.%s.roundtrip.N%d" % (nm, n), un, "h_layer_roundtrip", defines=d,
+                              replace=["layer_write_binary", "layer_read_binary"], unwind=5, closes_loops="harness loops over N", backends=(("sat", 600), ("cadical", 600))))
+    return cells
+
+
 def cells_C06(tier, consts):
-    return binio_cells(tier) + array_io_cells(tier, ["read", "write"])
+    return binio_cells(tier) + array_io_cells(tier, ["read", "write"]) + layer_io_cells(tier)
 
 
 PROPS["C06"] = {
@@ -512,7 +532,10 @@ def simple_layer_cells(tier):
             cells.append(Cell("shuffle.shuffle.p%s.%s" % (perm, sty), un, "h_shuffle_shuffle", defines=d, enforce="shuffle_shuffle", unwind=6, closes_loops=cl, replay="simple_layers"))
             cells.append(Cell("shuffle.at.p%s.%s.M%d" % (perm, sty, m), un, "h_shuffle_at", defines=d, enforce="shuffle_at", replace=["shuffle_shuffle"], unwind=6, closes_loops=cl, replay="simple_layers"))
     for n, m in ((1, 1), (2, 2), (3, 3), (1, 3), (1, 2), (3, 1), (2, 3), (4, 2)):
-        for src, dst in (("float", "double"), ("double", "float")):
+        pairs = [("float", "double"), ("double", "float")]
+        if (n, m) in ((1, 1), (3, 3), (1, 3)):
+            pairs += [("double", "double"), ("int", "double"), ("long", "double")]   # a detour through a narrower type must show
+        for src, dst in pairs:
             d = {"DIMS_IN": n, "IN_SCALAR_T": "float", "DIMS_OUT": m, "OUT_SCALAR_T": src, "CAST_T": dst, "UNIT_CAST": 1}
             un = "cast@N=%d,M=%d" % (n, m)
             cells.append(Cell("cast.at_helper.N%d.M%d.%s_to_%s" % (n, m, src, dst), un, "h_cast_at_helper", defines=d, enforce="cast_at_helper", unwind=6, closes_loops=cl, replay="simple_layers"))
@@ -556,8 +579,8 @@ PROPS["C02"] = {
 # ------------------------------------------------------------------ C03
 def cells_C03(tier, consts):
     cells = []
-    combos_q = [(1, 1, "float", "float"), (1, 3, "float", "float"), (2, 2, "float", "float"), (2, 1, "float", "float"), (2, 3, "double", "float"),
-                (3, 3, "float", "float"), (3, 1, "float", "double"), (4, 2, "float", "float")]
+    combos_q = [(1, 1, "float", "float"), (1, 3, "float", "float"), (1, 2, "double", "float"), (2, 2, "float", "float"), (2, 1, "float", "float"), (2, 3, "double", "float"),
+                (3, 3, "float", "float"), (3, 1, "float", "double"), (3, 1, "double", "float"), (4, 2, "float", "float"), (4, 1, "double", "float")]
     combos_t = combos_q + [(1, 2, "double", "double"), (2, 2, "double", "double"), (3, 2, "double", "float"), (3, 3, "double", "double"),
                            (4, 4, "float", "float"), (4, 1, "double", "float"), (5, 1, "float", "float")]
     combos = combos_t if tier == "thorough" else combos_q
@@ -577,12 +600,12 @@ def cells_C03(tier, consts):
                           replace=["linear_index_helper"], unwind=uw, backends=be, object_bits=10,
                           closes_loops="unwinding to the template constants 2^N, N, M (complete)",
                           note="neighbour set (all coordinates, all data) + lattice exactness (all finite data)", replay="linear"))
-        if tier == "quick" and (n >= 4 or cty == "double"):
-            continue   # the weights cells of the generic branch / double coordinates take 8-12 min: thorough tier
+        if tier == "quick" and n >= 4:
+            continue   # the generic-branch weights cells take 8-12 min: thorough tier only
         cells.append(Cell("linear.weights.N%d.M%d.%s.%s" % (n, m, cty, sty), un, "h_linear_weights", defines=dict(d, VERIF_LIN_WEIGHTS=1), enforce="linear_at",
                           replace=["linear_index_helper"], unwind=uw, backends=be, object_bits=10,
                           closes_loops="unwinding to the template constants 2^N, N, M (complete)",
-                          note="exact sub-domain: basis data, fractional parts in {0,1/4,1/2,3/4}, cell index symbolic up to 10^6", replay="linear"))
+                          note="exact sub-domain: basis data, fractional parts in {0,1/4,1/2,3/4}, cell index symbolic up to 2^21 (float) / 2^23 (double coordinates)", replay="linear"))
     return cells
 
 
